@@ -554,7 +554,7 @@ def emptiness_by(test, is_x):
     return (not res) if neg else res
 
 
-def grow_multiset(stmts, L):
+def grow_multiset(stmts, L, splice=False):
     """how list L grows in a statement block, as [(count expr or None for 1, element expr, node)]; None when some
     growth is not one of: L.append(E) | for _ in range(N): L.append(E) | L.extend(E for _ in range(N)) |
     L.extend([E] * N) | L += [E] * N | L += [E, ...]"""
@@ -585,6 +585,9 @@ def grow_multiset(stmts, L):
         if isinstance(e, ast.List):
             for x in e.elts:
                 out.append((None, x, node))
+            return True
+        if splice:
+            out.append((ast.Constant(value="*"), e, node))  # every element of the sequence e
             return True
         return False
 
@@ -814,7 +817,7 @@ def list_builder(fn, name):
     env = {}
     entries = []
     for st in loop.body:
-        gm = grow_multiset([st], name)
+        gm = grow_multiset([st], name, splice=True)
         if gm:
             for cnt, el, node in gm:
                 c2 = _SubstEnv(env).visit(copy.deepcopy(cnt)) if cnt is not None else None
@@ -824,10 +827,18 @@ def list_builder(fn, name):
             continue
         if gm is None:
             return None
-        env2, ret, rest = straightline([st], env)
-        if rest or ret is not None:
-            return None
-        env = env2
+        if isinstance(st, (ast.Assign, ast.AnnAssign, ast.AugAssign)):
+            env2, ret, rest = straightline([st], env)
+            if rest or ret is not None:
+                return None
+            env = env2
+        elif any(isinstance(n, ast.Name) and n.id == name for n in ast.walk(st)):
+            return None  # the list is used by something this analysis does not model
+        # other statements (effects on other variables) do not change what this list receives
+    # single-definition constants of the enclosing function are folded in
+    consts = {k: v for k, v in single_defs(fn).items() if isinstance(v, ast.Constant)} if hasattr(fn, "args") else {}
+    if consts:
+        entries = [(c if c is None else _txt(_Inline(consts).visit(ast.parse(c, mode="eval").body)), _txt(_Inline(consts).visit(ast.parse(e, mode="eval").body))) for c, e in entries]
     return _txt(loop.iter), entries
 
 
